@@ -335,14 +335,16 @@ pub fn record(rng: &mut SmallRng, n_events: usize, out: &mut dyn Write) {
             let ret = if k % 2 == 0 { json!(ord_s(sc::cmp_slice_str(&a, &b))) } else { json!(sc::eq_slice_str(&a, &b)) };
             writeln!(out, "{}", json!({"ev": if k % 2 == 0 {"cmp"} else {"eq"}, "kind": "nested", "l": l, "r": r, "ret": ret})).unwrap();
         } else {
-            let l = gen_flat(rng, 12);
+            // lengths around 8 / 16 / 32 / 64 elements one time in four (equal up to a late index)
+            let ml = [12, 12, 12, 12, 12, 12, 9, 17, 33, 40, 65, 80][rng.gen_range(0..12)];
+            let l = if ml > 12 { let mut v = gen_flat(rng, ml); while v.len() + 2 < ml { v.push(rng.gen_range(0..3)); } v } else { gen_flat(rng, ml) };
             let mut r = l.clone();
             match rng.gen_range(0..5) {
                 0 => {}
                 1 => { if !r.is_empty() { let i = rng.gen_range(0..r.len()); r[i] = rng.gen_range(0..3); } }
                 2 => { r.push(rng.gen_range(0..3)); }
                 3 => { r.pop(); if !r.is_empty() { let i = rng.gen_range(0..r.len()); r[i] = rng.gen_range(0..3); } }
-                _ => { r = gen_flat(rng, 12); }
+                _ => { r = gen_flat(rng, ml); }
             }
             let ret = match k % 6 {
                 0 => json!(ord_s(sc::cmp_slice_i64(&map_digits::<i64>(&l).unwrap(), &map_digits::<i64>(&r).unwrap()))),
